@@ -34,7 +34,8 @@ def step (p : S) (line : String) : S × String :=
       | ["none"] => some Src.none'
       | ["imm", i] => i.toInt?.map Src.imm
       | ["shared", c] => c.toNat?.map Src.shared
-      | ["factory"] => some Src.factory
+      | ["factory"] => some (Src.factory [])
+      | ["factory", l] => ((l.splitOn ",").filter (· ≠ "")).mapM String.toInt? |>.map Src.factory
       | _ => none
     match s with
     | some s => ({ p with src := p.src.push s }, "ok")
